@@ -46,7 +46,7 @@ from vf.worlds import runner_ctx
 
 MOD = "vf.props.c18"
 VALUE_OPS = ("random", "utc_now", "uuid")
-HISTORIES = ("retry", "kill", "recover", "two-sequential", "two-alternating", "two-seq-retry")
+HISTORIES = ("retry", "kill", "recover", "two-sequential", "two-alternating", "two-seq-retry", "early-retry", "two-seq-early-retry")
 # a violation of a composite history is attributed to the simplest sub-history of the same
 # (program, backend, image) that shows the same (clause, op): history minimisation
 SUB_HISTORIES = {"two-alternating": ("retry", "two-sequential"), "two-seq-retry": ("retry", "two-sequential")}
@@ -207,7 +207,10 @@ def run_history(backend: str, image: str, prog: tuple, history: str, die_at: int
     two = history.startswith("two")
     fail_until = 2 if history in ("retry", "two-alternating", "two-seq-retry") else 0
     dj = die_at if history in ("kill", "recover") else -1
-    ids: list[str] = [str(client.c18_prog(list(prog), fail_until, dj, 0).invocation_id)]
+    # early retry: the first attempt asks for a retry *before* operation number die_at (what it had not reached is
+    # performed for the first time on a retry attempt); in the two-workflow variant only the second workflow does
+    rj = die_at if history in ("early-retry", "two-seq-early-retry") else -1
+    ids: list[str] = [str(client.c18_prog(list(prog), fail_until, dj, 0, rj if history == "early-retry" else -1).invocation_id)]
     if history == "two-alternating":
         ids.append(str(client.c18_prog(list(prog), fail_until, dj, 1).invocation_id))
     pp: list = []
@@ -242,7 +245,7 @@ def run_history(backend: str, image: str, prog: tuple, history: str, die_at: int
         if got is None:
             if two and not submitted_b:
                 # the first workflow is finished: the same task is submitted again (second workflow)
-                ids.append(str((im.new() if fresh else client).c18_prog(list(prog), fail_until, dj, 1).invocation_id))
+                ids.append(str((im.new() if fresh else client).c18_prog(list(prog), fail_until, dj, 1, rj).invocation_id))
                 submitted_b = True
                 continue
             break
@@ -258,7 +261,7 @@ def run_history(backend: str, image: str, prog: tuple, history: str, die_at: int
         "store": im.store(reader),
         "status": {i: reader.orchestrator.get_invocation_status(i).name for i in ids},
         "images": im.n_images,
-        "expected_runs": 3 if fail_until else (2 if dj >= 0 else 1),
+        "expected_runs": 3 if fail_until else (2 if dj >= 0 or history == "early-retry" else (None if rj >= 0 else 1)),
     }
     obs["subs"] = im.subs(reader, obs["log"])
     return obs
@@ -366,6 +369,8 @@ def cases_of(prog: tuple) -> list[tuple[str, int]]:
     out += [("kill", j) for j in range(0, n + 1)]
     out += [("recover", j) for j in range(0, n + 1)]
     out += [("two-sequential", -1), ("two-alternating", -1), ("two-seq-retry", -1)]
+    out += [("early-retry", j) for j in range(0, n)]
+    out += [("two-seq-early-retry", j) for j in range(0, n)]
     return out
 
 
